@@ -23,10 +23,11 @@ mv /tmp/demo_$ID.rs.aside $DEMO
 cargo test --offline -p join --test demo_$ID > /tmp/demo_$ID.with 2>&1; with=$?
 echo "demo with change: exit $with" >> $log; grep -E '^test result|error(\[|:)' /tmp/demo_$ID.with | head -5 >> $log
 # 3. demo without change
-git stash push -q -- join_impl join/src
+# (no `git stash`: the stash is shared by all worktrees of a repository and concurrent sub-agents would race on it)
+git checkout -q -- join_impl join/src
 cargo test --offline -p join --test demo_$ID > /tmp/demo_$ID.without 2>&1; without=$?
 echo "demo without change: exit $without" >> $log; grep -E '^test result' /tmp/demo_$ID.without | head -3 >> $log
-git stash pop -q
+git apply $OUT/patch.diff
 echo "suite_ok=$suite with=$with without=$without" | tee -a $log
 rm -f /tmp/demo_$ID.with /tmp/demo_$ID.without /tmp/demo_$ID.rs.keep
 [ "$suite" = 1 ] && [ $with -ne 0 ] && [ $without -eq 0 ]
